@@ -836,6 +836,8 @@ fn write_evidence(
         "distinct_states_estimate": t.stats.state_sample.len() as u64 * STATE_SAMPLE,
         "distinct_states_measure": format!("distinct hashes of the hook snapshot (present slots, tags, read status, data, ordered edges, member-list sizes), estimated from the 1/{STATE_SAMPLE} hash-sample that is kept"),
         "distinct_op_trigrams": t.stats.trigrams.len(),
+        "distinct_instance_interleavings": t.stats.interleavings.len(),
+        "distinct_instance_interleavings_measure": "distinct hashes of the sequence of graph instances the steps of a run were issued to while at least two graphs were live",
         "determinism_recheck": {"runs": recheck_runs, "mismatches": recheck_mismatch, "how": "a sample of runs (index % 97 == 0) re-executed in a second process; event-log hashes compared"},
         "regressions_replayed": regressions,
         "known_findings_printed": known_printed,
